@@ -78,8 +78,13 @@ fn main() {
                 count: arg(&args, "--count").and_then(|s| s.parse().ok()).unwrap_or(1000),
                 out: arg(&args, "--out").expect("--out"),
                 max_secs: arg(&args, "--max-secs").and_then(|s| s.parse().ok()).unwrap_or(1e9),
-                max_violations: 4,
+                max_violations: arg(&args, "--max-violations").and_then(|s| s.parse().ok()).unwrap_or(4),
+                hash_log: arg(&args, "--hash-log"),
             })
+        }
+        "list-sims" => {
+            println!("{}", SIMS.iter().map(|s| s.name).collect::<Vec<_>>().join(" "));
+            0
         }
         "exec-server" => {
             init_worker_process();
